@@ -424,6 +424,7 @@ var c11Params = []string{"string", "bool", "int", "int8", "int16", "int32", "int
 var c11Args = []argVal{
 	aNull, aTrue, {Text: "false", Kind: "bool"},
 	aNum("3", "3"), aNum("0", "0"), aNum("(-2)", "-2"), aNum("2.7", "27/10"), aNum("(-2.7)", "-27/10"), aNum("0.5", "1/2"), aNum("100", "100"), aNum("(1+1)", "2"), aNum("0.1", "1/10"), aNum("(-0.9)", "-9/10"), aNum("127", "127"),
+	aNum("3.0", "3"), aNum("30e-1", "3"), aNum("(1.5 * 2)", "3"), aNum("(-2.70)", "-27/10"), aNum("1e2", "100"), aNum("(0 * -1)", "0"),
 	aStr("s"), aStr(""), aStr("12"),
 	aArr(), aArr(aNum("1", "1"), aNum("2", "2")), aArr(aStr("a"), aStr("b")), aArr(aNum("1", "1"), aStr("a")), aArr(aArr(aNum("1", "1"))), aArr(aNum("2.7", "27/10"), aNum("(-2.7)", "-27/10")), aArr(aNull),
 	aMap, aTime,
@@ -478,7 +479,7 @@ func TestC11Exhaustive(t *testing.T) {
 				for _, a := range c11Args {
 					try(callCase{Fn: fn, Args: []argVal{a}})
 					try(callCase{Fn: fn, Args: []argVal{a}, Spread: true})
-					for _, b := range []argVal{c11Args[3], c11Args[6], c11Args[14], aNull, c11Args[18]} {
+					for _, b := range []argVal{aNum("3", "3"), aNum("2.7", "27/10"), aStr("s"), aNull, aArr(aNum("1", "1"), aNum("2", "2"))} {
 						try(callCase{Fn: fn, Args: []argVal{a, b}})
 						try(callCase{Fn: fn, Args: []argVal{b, a}, Spread: true})
 					}
@@ -486,7 +487,7 @@ func TestC11Exhaustive(t *testing.T) {
 				for _, p0 := range []string{"int", "string", "any"} {
 					fn2 := spec.Fn{Name: "f", Ctx: ctx, Params: []string{p0, p1}, Variadic: variadic, Ret: "nil"}
 					for _, a := range c11Args {
-						for _, b := range []argVal{c11Args[3], c11Args[7], c11Args[14], aNull} {
+						for _, b := range []argVal{aNum("3", "3"), aNum("(-2.7)", "-27/10"), aStr("s"), aNull} {
 							try(callCase{Fn: fn2, Args: []argVal{b, a}})
 							try(callCase{Fn: fn2, Args: []argVal{b, a}, Spread: true})
 							try(callCase{Fn: fn2, Args: []argVal{b, a, a}})
